@@ -28,6 +28,7 @@ class ConcreteEngine:
         self.scratch: Dict[str, Any] = {}
         self.missing: List[str] = []
         self.symbolic_pi = False
+        self.div_zero_policy = "fork"
 
     def _name(self, base: str) -> str:
         n = self.counters.get(base, 0)
@@ -94,7 +95,7 @@ class ConcreteEngine:
     def decide(self, term):
         return bool(term)
 
-    def implied(self, cond):
+    def implied(self, cond, light=True):
         return bool(cond)
 
     def possible(self, cond):
